@@ -84,10 +84,11 @@ class D(operator.Operator):
             D = D.reshape(D.shape[:nb] + (1,) * (max(sm.ndim - nb, 0) + 1) + D.shape[-2:])
         DL, DT = diffusion_operator(bmatL, bmatT, D)
 
-        # apply
-        sm.states[..., 0] = DT * sm.states[..., 0]
-        sm.states[..., 2] = DL * sm.states[..., 2]
-        sm.states[..., 1] = sm.states[..., ::-1, 0].conj()
+        # apply (out of place: the stored states may lack batch axes of the operator, or be a broadcast view)
+        states = sm.states
+        F = DT * states[..., 0]
+        Z = DL * states[..., 2]
+        sm.states = xp.stack([F, F[..., ::-1].conj(), Z], axis=-1)
 
         return sm
 
